@@ -4,22 +4,25 @@ EXTENDS Cap
 
 CONSTANTS Level    \* 0: every kind of batch; 11 / 12: witness alphabets for CountThenLock / CountOverIndex
 
-PT(ps) == [kind |-> "pt", n |-> 0, patches |-> ps]
-PE(n) == [kind |-> "pe", n |-> n, patches |-> <<>>]
-SH(n) == [kind |-> "sh", n |-> n, patches |-> <<>>]
+PT(ps) == [kind |-> "pt", n |-> 0, patches |-> ps, create |-> FALSE, seedm |-> FALSE]
+PTC(ps, seedm) == [kind |-> "pt", n |-> 0, patches |-> ps, create |-> TRUE, seedm |-> seedm]
+PE(n) == [kind |-> "pe", n |-> n, patches |-> <<>>, create |-> FALSE, seedm |-> FALSE]
+SH(n) == [kind |-> "sh", n |-> n, patches |-> <<>>, create |-> FALSE, seedm |-> FALSE]
 
 MCReqs ==
   CASE Level = 11 -> {PT(<< <<1, "in">> >>), PT(<< <<2, "in">> >>)}
     [] Level = 12 -> {PE(1)}
     [] OTHER -> {PT(<< <<1, "in">> >>), PT(<< <<2, "in">> >>), PT(<< <<1, "in">>, <<2, "in">> >>), PT(<< <<1, "out">>, <<3, "in">> >>),
-                 PT(<< <<3, "in">>, <<3, "out">>, <<2, "in">> >>), PE(1), PE(2), SH(1)}
+                 PT(<< <<3, "in">>, <<3, "out">>, <<2, "in">> >>), PE(1), PE(2), SH(1),
+                 \* creates: key 4 never exists initially; the seed matches / does not match; the ops touch / do not touch the field
+                 PTC(<< <<4, "keep">> >>, TRUE), PTC(<< <<4, "in">>, <<1, "in">> >>, FALSE), PTC(<< <<4, "out">> >>, TRUE)}
 
 R(m, x, e) == [live |-> TRUE, m |-> m, x |-> x, e |-> e]
 
 \* initial swamps: nobody matches; or (Max permitting) k3 matches, with a lease or without any expiry
 MCInit ==
   /\ \E r3 \in {R(FALSE, TRUE, TRUE), R(TRUE, FALSE, TRUE), R(TRUE, FALSE, FALSE)} :
-       rec = [k \in Keys |-> IF k = 3 THEN r3 ELSE R(FALSE, TRUE, TRUE)]
+       rec = [k \in Keys |-> IF k = 3 THEN r3 ELSE IF k = 4 THEN Dead ELSE R(FALSE, TRUE, TRUE)]
   /\ mu = ""
   /\ pc = [p \in Procs |-> "idle"] /\ req = [p \in Procs |-> NoReq] /\ pre = [p \in Procs |-> -1]
   /\ budget = [p \in Procs |-> 0] /\ todo = [p \in Procs |-> <<>>] /\ sel = [p \in Procs |-> <<>>]
